@@ -7,4 +7,4 @@ trap 'rm -rf "$d"' EXIT
 f=$(readlink -f "$1")
 printf '{"Replace":{"/repo/%s/zz_finding_test.go":"%s"}}' "$2" "$f" > "$d/ov.json"
 [ "$2" = "." ] && printf '{"Replace":{"/repo/zz_finding_test.go":"%s"}}' "$f" > "$d/ov.json"
-cd /repo && go test -overlay "$d/ov.json" -vet=off -count=1 ${VERBOSE:+-v} -timeout 120s -run "$3" "./$2"
+cd /repo && go test -overlay "$d/ov.json" -vet=off -count=1 ${VERBOSE:+-v} -timeout ${REPLAY_TIMEOUT:-120s} -run "$3" "./$2"
